@@ -49,8 +49,8 @@ open EasyMl EasyMl.Iter EasyMl.View Driver
 inductive Src where
   | none
   | shape (lens : List Nat)
-  | tensor (names : List String) (src : TSource Nat) (leafIds : List Nat)
-  | matrix (src : MSource Nat) (leafIds : List Nat)
+  | tensor (names : List String) (src : TSource Nat) (leafIds : List Nat) (mode : String)
+  | matrix (src : MSource Nat) (leafIds : List Nat) (mode : String)
 
 abbrev State := Src
 
@@ -78,7 +78,16 @@ def showHint : Outcome (Nat × Option Nat) → String
 /-- memory of the leaf: `some id` an original value, `none` a placeholder -/
 abbrev Mem := Nat → Option Nat
 
-def mem0 : Mem := fun c => some c
+/-- the value stored in the cell with this id (`d=<mode>` of the case header) -/
+def valOf (mode : String) (id : Nat) : Nat :=
+  match mode with
+  | "zero" => 0
+  | "same" => 7
+  | "dup" => id / 2
+  | "mod3" => id % 3
+  | _ => id
+
+def memOf (mode : String) : Mem := fun c => some (valOf mode c)
 
 def showVal : Option (Option Nat) → String
   | none => "UB"
@@ -108,7 +117,8 @@ def flavourNext (f : Flavour) (next : σ → Outcome (Option π × σ)) (cell : 
   | .ref | .mut =>
     match refNext next cell st.1 with
     | .panic k => .panic k
-    | .ok (x, s') => .ok (x.map fun c => c.map fun c => st.2 c, (s', st.2))
+    -- a reference is shown by the cell it points to (the harness locates it by address)
+    | .ok (x, s') => .ok (x.map fun c => c.map fun c => some c, (s', st.2))
   | .owned => ownedNext next cell none st
 
 /-- the records of `n` calls by the code-shaped model -/
@@ -139,15 +149,17 @@ def modelRecords (f : Flavour) (wi : Bool) (next : σ → Outcome (Option π × 
       (s!"{h}:{item}" :: r.1, v :: r.2.1, r.2.2)
 
 /-- the records demanded by the specification: `item k` is the `k`-th position -/
-def specRecords (wi : Bool) (total : Nat) (item : Nat → Option π) (cell : π → Option Nat)
-    (showP : π → String) (n : Nat) : List String :=
+def specRecords (f : Flavour) (m0 : Mem) (wi : Bool) (total : Nat) (item : Nat → Option π)
+    (cell : π → Option Nat) (showP : π → String) (n : Nat) : List String :=
   (List.range n).map fun k =>
     let rem := Spec.remaining total k
     let it := match item k with
       | none => "-"
       | some p =>
         let v := match cell p with
-          | some c => toString c
+          | some c =>
+            -- references are shown by their cell, copies and moved-out values by their value
+            if f = Flavour.ref || f = Flavour.mut then toString c else showVal (some (m0 c))
           | none => "UB"
         if wi then s!"{v}@{showP p}" else v
     s!"{rem}/{rem}/{rem}:{it}"
@@ -166,11 +178,11 @@ where showNats' (l : List String) : String := if l.isEmpty then "-" else ",".int
 def answer (op : String) (f : Flavour) (wi : Bool) (split : Option Nat) (n : Nat) (leafIds : List Nat) (total : Nat)
     (next : σ → Outcome (Option π × σ)) (hint : σ → Outcome (Nat × Option Nat))
     (counter : σ → π) (cell : π → Option Nat) (item : Nat → Option π) (showP : π → String)
-    (s0 : σ) : String :=
+    (mem0 : Mem) (s0 : σ) : String :=
   let m := modelRecords f wi next hint counter cell showP n (s0, mem0)
   if op = "left" then
     let visited := (List.range n).filterMap fun k => (item k).bind cell
-    let specMem : Mem := fun o => if visited.contains o then none else some o
+    let specMem : Mem := fun o => if visited.contains o then none else mem0 o
     both (showLeft specMem leafIds) (showLeft m.2.2.2 leafIds)
   else
     let tail (distinct : Bool) : String :=
@@ -180,7 +192,7 @@ def answer (op : String) (f : Flavour) (wi : Bool) (split : Option Nat) (n : Nat
       | _ => ""
     match split with
     | none =>
-      let spec := ";".intercalate (specRecords wi total item cell showP n) ++ tail true
+      let spec := ";".intercalate (specRecords f mem0 wi total item cell showP n) ++ tail true
       let model := ";".intercalate m.1 ++ tail (nodup m.2.1)
       both spec model
     | some k =>
@@ -189,8 +201,8 @@ def answer (op : String) (f : Flavour) (wi : Bool) (split : Option Nat) (n : Nat
       -- up to `k` and of the plain run from `k` on
       let m0 := modelRecords f false next hint counter cell showP n (s0, mem0)
       let m1 := modelRecords f true next hint counter cell showP n (s0, mem0)
-      let spec := ";".intercalate ((specRecords true total item cell showP n).take k ++
-        (specRecords false total item cell showP n).drop k) ++ tail true
+      let spec := ";".intercalate ((specRecords f mem0 true total item cell showP n).take k ++
+        (specRecords f mem0 false total item cell showP n).drop k) ++ tail true
       let model := ";".intercalate (m1.1.take k ++ m0.1.drop k) ++ tail (nodup m0.2.1)
       both spec model
 
@@ -241,11 +253,13 @@ def splitPre (toks : List String) : List String × List String :=
   (toks.filterMap fun t => if t.startsWith "pre:" then some (t.drop 4).toString else none,
    toks.filter fun t => !t.startsWith "pre:")
 
-def finishTensor (root : Option (View String Nat)) (post : List String) : State × String :=
+def finishTensor (mode : String) (root : Option (View String Nat)) (post : List String) :
+    State × String :=
   match post.foldl (fun acc tok => acc.bind fun v => applyTensorAdaptor v tok) root with
   | none => (.none, "reject")
   | some v =>
-    (.tensor (v.shape.map (·.1)) (viewSource v) (viewLeafIds v), s!"ok shape={showShape v.shape}")
+    (.tensor (v.shape.map (·.1)) (viewSource v) (viewLeafIds v) mode,
+      s!"ok shape={showShape v.shape}")
 
 def applyMatrixAdaptor (src : MSource Nat) (tok : String) : Option (MSource Nat) :=
   match tok.splitOn ":" with
@@ -286,7 +300,8 @@ def shapeIterAnswer (lens : List Nat) (n : Nat) : String :=
   if total ≤ usizeMax then both (";".intercalate specRecs) model
   else s!"unrepresentable-length ## {model}"
 
-def matrixAnswer (op : String) (src : MSource Nat) (leafIds : List Nat) (toks : List String) : String :=
+def matrixAnswer (op : String) (src : MSource Nat) (leafIds : List Nat) (m0 : Mem)
+    (toks : List String) : String :=
   let kind := (optArg "k" toks).getD "rowmajor"
   let a := natArg "a" toks 0
   let n := natArg "n" toks 0
@@ -300,29 +315,30 @@ def matrixAnswer (op : String) (src : MSource Nat) (leafIds : List Nat) (toks : 
     match kind with
     | "rowmajor" =>
       answer op f wi split n leafIds (src.rows * src.columns) rowMajorNext rowMajorSizeHint counterM
-        src.cell (Spec.rowMajorItem src.rows src.columns) showPos (MatIter.new src.rows src.columns)
+        src.cell (Spec.rowMajorItem src.rows src.columns) showPos m0 (MatIter.new src.rows src.columns)
     | "colmajor" =>
       answer op f wi split n leafIds (src.rows * src.columns) colMajorNext colMajorSizeHint counterM
-        src.cell (Spec.colMajorItem src.rows src.columns) showPos (MatIter.new src.rows src.columns)
+        src.cell (Spec.colMajorItem src.rows src.columns) showPos m0 (MatIter.new src.rows src.columns)
     | "row" =>
       match LineIter.newRow src.rows src.columns a with
       | .panic k => s!"panic({k})"
       | .ok it =>
         answer op f false none n leafIds src.columns lineNext (fun it => .ok it.sizeHint) counterL
-          src.cell (Spec.rowItem src.columns a) showPos it
+          src.cell (Spec.rowItem src.columns a) showPos m0 it
     | "col" =>
       match LineIter.newColumn src.rows src.columns a with
       | .panic k => s!"panic({k})"
       | .ok it =>
         answer op f false none n leafIds src.rows lineNext (fun it => .ok it.sizeHint) counterL
-          src.cell (Spec.columnItem src.rows a) showPos it
+          src.cell (Spec.columnItem src.rows a) showPos m0 it
     | "diag" =>
       answer op f false none n leafIds (min src.rows src.columns) lineNext (fun it => .ok it.sizeHint)
-        counterL src.cell (Spec.diagonalItem src.rows src.columns) showPos
+        counterL src.cell (Spec.diagonalItem src.rows src.columns) showPos m0
         (LineIter.newDiagonal src.rows src.columns)
     | _ => "bad-op"
 
-def tensorAnswer (op : String) (src : TSource Nat) (leafIds : List Nat) (toks : List String) : String :=
+def tensorAnswer (op : String) (src : TSource Nat) (leafIds : List Nat) (m0 : Mem)
+    (toks : List String) : String :=
   let n := natArg "n" toks 0
   let wi := (optArg "wi" toks) == some "1"
   let split := (optArg "split" toks).bind String.toNat?
@@ -330,9 +346,12 @@ def tensorAnswer (op : String) (src : TSource Nat) (leafIds : List Nat) (toks : 
   | none => "bad-op"
   | some f =>
     answer op f wi split n leafIds (prod src.shape) shapeNext (fun it => it.sizeHint) (·.indexes)
-      src.cell (Spec.shapeItem src.shape) showIdx (ShapeIter.new src.shape)
+      src.cell (Spec.shapeItem src.shape) showIdx m0 (ShapeIter.new src.shape)
 
 def step (s : State) (toks : List String) : State × String :=
+  -- `d=<mode>` on a case header: the data stored in the leaves
+  let mode := (optArg "d" toks).getD "ids"
+  let toks := if toks.head? = some "@" then toks.filter (fun t => !t.startsWith "d=") else toks
   match toks with
   | ["@", "shape", lensS] =>
     match parseNatList lensS with
@@ -343,7 +362,7 @@ def step (s : State) (toks : List String) : State × String :=
     | none => (.none, "bad-op")
     | some shape =>
       let n := elements shape
-      finishTensor (mkTensor 0 shape (List.range n)) adaptors
+      finishTensor mode (mkTensor 0 shape (List.range n)) adaptors
   | "@" :: "stack" :: alongS :: _form :: countS :: shapeS :: rest =>
     match alongS.splitOn ".", countS.toNat?, parseShape shapeS with
     | [posS, name], some count, some shape =>
@@ -353,7 +372,7 @@ def step (s : State) (toks : List String) : State × String :=
         let (pre, post) := splitPre rest
         match (List.range count).mapM fun j => zipSource j shape pre with
         | none => (.none, "reject")
-        | some srcs => finishTensor (mkStack srcs (pos, name)) post
+        | some srcs => finishTensor mode (mkStack srcs (pos, name)) post
     | _, _, _ => (.none, "bad-op")
   | "@" :: "chain" :: name :: _form :: shapesS :: rest =>
     match (shapesS.splitOn "|").mapM parseShape with
@@ -363,22 +382,22 @@ def step (s : State) (toks : List String) : State × String :=
       -- `pre:rename` changes the name of the chained dimension along with the others
       match (List.zip (List.range shapes.length) shapes).mapM fun (j, shape) => zipSource j shape pre with
       | none => (.none, "reject")
-      | some srcs => finishTensor (mkChain srcs name) post
+      | some srcs => finishTensor mode (mkChain srcs name) post
   | "@" :: "matrix" :: rowsS :: colsS :: adaptors =>
     match rowsS.toNat?, colsS.toNat? with
     | some rows, some cols =>
       let start : Option (MSource Nat) := some (MSource.ofMatrix rows cols)
       match adaptors.foldl (fun acc tok => acc.bind fun src => applyMatrixAdaptor src tok) start with
       | none => (.none, "bad-op")
-      | some src => (.matrix src (List.range (rows * cols)), s!"ok size={src.rows}x{src.columns}")
+      | some src => (.matrix src (List.range (rows * cols)) mode, s!"ok size={src.rows}x{src.columns}")
     | _, _ => (.none, "bad-op")
   | op :: rest =>
     if op = "iter" || op = "left" then
       match s with
       | .none => (s, "no-source")
       | .shape lens => (s, shapeIterAnswer lens (natArg "n" rest 0))
-      | .tensor _ src leafIds => (s, tensorAnswer op src leafIds rest)
-      | .matrix src leafIds => (s, matrixAnswer op src leafIds rest)
+      | .tensor _ src leafIds mode => (s, tensorAnswer op src leafIds (memOf mode) rest)
+      | .matrix src leafIds mode => (s, matrixAnswer op src leafIds (memOf mode) rest)
     else (s, "bad-op")
   | _ => (s, "bad-op")
 
